@@ -1,6 +1,9 @@
-// TRUSTED PIPELINE CONTRACT -- one function of /repo/src/validation.rs that Verus cannot take:
-//   resolve_types  (hands a closure to the mutable walker; its closure IS proved, unit v_resolve; the composition is assumed)
-// The contract is assumed here and checked only by the bounded oracles (replay/oracle.rs, replay/c15_traversal.rs).
+// TRUSTED PIPELINE CONTRACT -- the one function of /repo/src/validation.rs whose body is not verified as a whole:
+//   resolve_types  hands a closure with mutable captures to walk_types_mut.
+// Both halves ARE proved: the closure (lifted, unit v_resolve: per-node step, frame, one Error iff unresolved, `resolved`
+// gains the node's key) and the walker (unit v_walk: every type node, at any depth, is offered exactly once, parent
+// first, as it is when offered; children are kept). Their composition - the contract below - is assumed (closure
+// conversion + accumulation of the per-node facts over the visit sequence) and cross-checked by the bounded oracles.
 
 // one node: same name, ranges and arity; kind untouched unless it was Unresolved
 spec fn node_resolved(o: ast::Type, n: ast::Type) -> bool
